@@ -472,11 +472,17 @@ func parseHashRuleSliceInfos(locations []int, slices []string) ([]int, map[int]i
 		return nil, nil, errors.ErrLocationsCount
 	}
 	for i := 0; i < len(locations); i++ {
+		if locations[i] < 0 {
+			return nil, nil, fmt.Errorf("locations must not be negative, slice: %s, location: %d", slices[i], locations[i])
+		}
 		for j := 0; j < locations[i]; j++ {
 			subTableIndexs = append(subTableIndexs, j+sumTables)
 			tableToSlice[j+sumTables] = i
 		}
 		sumTables += locations[i]
+	}
+	if sumTables == 0 {
+		return nil, nil, fmt.Errorf("locations must contain at least one table")
 	}
 	return subTableIndexs, tableToSlice, nil
 }
